@@ -544,10 +544,85 @@ pub fn run(tier: Tier) -> i32 {
             }
         }
     }
+    // scale: many axes and long axes (array positions stay exact in f64 far beyond these sizes)
+    let n_grid = shp.len();
+    shp.extend(crate::enumerate::scale_shapes(tier.pick(10, 11)).into_iter().filter(|s| s.iter().product::<usize>() <= 70_000));
+    let n_scale = shp.len() - n_grid;
     rep.rule = format!(
-        "all shapes with 1..{max_d} axes and lengths 1..{max_len} (thorough: plus 1..4 axes with lengths up to 8; {} shapes in total), array filled with its flat position; per shape: every index of the box [0..len+1]^d, every (axis 0..d+1, position 0..len+1), every iterator stepped through all histories next^j.len.next.. continued {PAST_END} calls past exhaustion, and through the histories next^j.nth(k).len.size_hint.next.len, next^j.count, next^j.last for j and k on their boundaries (0, 1, last, one and two past the end); non-trivial = a view of a >=3-axis array or an iterator history continued past exhaustion (counted per iterator instance)",
+        "all shapes with 1..{max_d} axes and lengths 1..{max_len} (thorough: plus 1..4 axes with lengths up to 8), plus {n_scale} shapes beyond that grid: every shape over lengths {{1,2}} with 6..10 (thorough 11) axes, 3^7, (2,3)^4, and axes of 255..65 537 entries ({} shapes in total), array filled with its flat position; per shape: every index of the box [0..len+1]^d, every (axis 0..d+1, position 0..len+1), every iterator stepped through all histories next^j.len.next.. continued {PAST_END} calls past exhaustion, and through the histories next^j.nth(k).len.size_hint.next.len, next^j.count, next^j.last for j and k on their boundaries (0, 1, last, one and two past the end); non-trivial = a view of a >=3-axis array or an iterator history continued past exhaustion (counted per iterator instance)",
         shp.len()
     );
+    // arrays with 2^32 and more elements (zero-sized elements, so no memory is needed): the ends of
+    // the index <-> position bijection, without walking it
+    {
+        let mut n = 0u64;
+        for shape in [vec![65_536usize, 65_536], vec![65_536, 65_537], vec![65_535, 65_537], vec![3, 2048, 1024, 1024], vec![2, 3, 5, 7, 11, 13, 17, 19, 23, 29]] {
+            n += 1;
+            let total: usize = shape.iter().product();
+            let sh = shape.clone();
+            let r = catch(move || -> Result<(), String> {
+                let arr: Array<()> = Array::from_element((), sh.clone());
+                let d = sh.len();
+                let last: Vec<usize> = sh.iter().map(|n| n - 1).collect();
+                let mut it = arr.iter_indices();
+                if it.len() != total {
+                    return Err(format!("iter_indices().len() = {}, expected {total}", it.len()));
+                }
+                let first = it.next().map(|i| i.to_vec());
+                if first != Some(vec![0; d]) {
+                    return Err(format!("first index {first:?}"));
+                }
+                // the item at flat position p (after one next(): nth(p - 1))
+                let p = sh[d - 1] * 3 + 2;
+                let mut expect = vec![0usize; d];
+                let mut rest = p;
+                for a in (0..d).rev() {
+                    expect[a] = rest % sh[a];
+                    rest /= sh[a];
+                }
+                let got = it.nth(p - 1).map(|i| i.to_vec());
+                if got != Some(expect.clone()) {
+                    return Err(format!("index at flat position {p} is {got:?}, expected {expect:?}"));
+                }
+                if it.len() != total - p - 1 {
+                    return Err(format!("len() after {} items = {}, expected {}", p + 1, it.len(), total - p - 1));
+                }
+                if arr.get(last.clone()).is_none() || arr.get(vec![0; d]).is_none() {
+                    return Err("get() of the first / last index is None".into());
+                }
+                for a in 0..d {
+                    let mut over = vec![0usize; d];
+                    over[a] = sh[a];
+                    if arr.get(over.clone()).is_some() {
+                        return Err(format!("get({over:?}) is Some for shape {sh:?}"));
+                    }
+                    if arr.get_axis(Axis(a), sh[a]).is_some() || arr.get_axis(Axis(a), sh[a] - 1).is_none() {
+                        return Err(format!("get_axis(Axis({a}), ..) bounds wrong for shape {sh:?}"));
+                    }
+                }
+                Ok(())
+            });
+            let verdict = match r {
+                Ok(x) => x,
+                Err(p) => Err(format!("panic: {p}")),
+            };
+            if let Err(e) = verdict {
+                rep.violation(
+                    format!("C19|lib|huge-array|{}", if e.starts_with("panic") { "panic" } else { "wrong" }),
+                    format!("Array<()> of shape {shape:?} ({total} elements): {e}"),
+                    J::obj([("kind", J::s("c19-huge")), ("shape", J::usizes(&shape))]),
+                );
+            }
+        }
+        rep.part(Part {
+            name: "lib: arrays with 2^32 and more elements".into(),
+            evaluations: n,
+            nontrivial: n,
+            note: "zero-sized elements, shapes 65536x65536, 65536x65537, 65535x65537, 3x2048x1024x1024 and ten prime axes: iter_indices len / first item / nth item / remaining len, get at the corners and one past each axis, get_axis bounds".into(),
+            exhaustive: true,
+            extra: vec![],
+        });
+    }
     let results = par_each(&shp, |s| check_shape(s));
     let mut evals = 0;
     let mut nontrivial = 0;
